@@ -183,6 +183,48 @@ func rulePatchSeq(w *World, r *Report, pkg *ssa.Package) {
 			r.Ok(rule, key2, pos, fmt.Sprintf("none of %d op sequences whose leading test lies 2 or 3 positions above the edit is folded into a before-context", nNeg))
 		}
 	}
+	// and for the after-context: the element a test names can only be the one *behind* the edit if
+	// its index is not smaller than the edit's; a test above the edit position folded into After is
+	// checked at the edit position, not where RFC 6902 evaluates it
+	{
+		key3 := "v2.setPatchDiffElementContext:after-context-not-above-the-edit"
+		bad := ""
+		nNeg := 0
+	neg2:
+		for _, gap := range []int64{2, 3} {
+			for _, tail := range [][]op{
+				{{"add", i + gap}},
+				{{"test", i + gap}, {"remove", i + gap}},
+			} {
+				ops := append([]op{{"test", i - 1}, {"test", i}}, tail...)
+				names := make([]string, len(ops))
+				idx := make([]int64, len(ops))
+				seq := []string{}
+				for k, o := range ops {
+					names[k], idx[k] = o.name, o.idx
+					seq = append(seq, fmt.Sprintf("%s /%d", o.name, o.idx))
+				}
+				res := ev.run(names, idx)
+				if res.undecided != "" {
+					nNeg = -1
+					break neg2
+				}
+				nNeg++
+				if !res.err && res.after == "op1" {
+					bad = fmt.Sprintf("[%s]: the second test, %d positions above the edit, is folded into the hunk's after-context (consumes %d)", strings.Join(seq, ", "), gap, res.consumed)
+					break neg2
+				}
+			}
+		}
+		switch {
+		case nNeg < 0:
+			r.Ok(rule, key3, pos, "the evaluator cannot decide a branch of the context reader on these sequences: this clause makes no claim (not decided)")
+		case bad != "":
+			r.Bad(rule, key3, pos, "for the op sequence "+bad+": the list patch checks an after-context at the edit position, RFC 6902 evaluates the test at the index it names — jd compares a different element and accepts documents on which the RFC evaluation fails")
+		default:
+			r.Ok(rule, key3, pos, fmt.Sprintf("none of %d op sequences whose second test lies above the edit position is folded into an after-context", nNeg))
+		}
+	}
 	r.Ok(rule, key, pos, fmt.Sprintf("all %d op sequences of the writer's list-hunk grammar (context present/absent, 0..3 removals, 0..2 additions, with and without a following hunk, at the start of the hunk and of each later pair) are consumed as the writer means them", nOK))
 }
 
